@@ -73,6 +73,16 @@ class SafeLearner(Learner):
             return False
 
     @staticmethod
+    def is_dict_col_kw(pred: Pred) -> bool:
+        #[{hint:column},kwargs] where kwargs may be any Mapping (not only a dict)
+        try:
+            return (not isinstance(pred,abc.Mapping) and len(pred) == 2
+                and isinstance(pred[0],dict) and isinstance(pred[1],abc.Mapping)
+                and pred[0].keys() != pred[1].keys())
+        except Exception:
+            return False
+
+    @staticmethod
     def batch_order(predictor, pred: Pred, context, actions, method=None) -> Literal['not','col','row']:
         if method == 2: return 'row'
         if not is_batch(actions) and not is_batch(context): return 'not'
@@ -80,7 +90,7 @@ class SafeLearner(Learner):
         no_len         = lambda item: not hasattr(item,'__len__')
         is_all_dicts   = all(isinstance(p,dict) for p in pred)
         is_dict_col    = isinstance(pred,dict)
-        is_dict_col_kw = is_all_dicts and pred[0].keys() != pred[-1].keys() and len(pred)==2
+        is_dict_col_kw = SafeLearner.is_dict_col_kw(pred)
         is_dict_row    = is_all_dicts and pred[0].keys() == pred[-1].keys()
 
         if is_dict_col or is_dict_col_kw : return 'col'
@@ -203,7 +213,7 @@ class SafeLearner(Learner):
             return try_else(lambda: len(obj), 0)
         if out is None:
             raise CobaException("The given prediction was none and did not match the batch_size.")
-        if all(isinstance(p,dict) for p in out) and out[0].keys() != out[-1].keys(): #pragma: no cover
+        if SafeLearner.is_dict_col_kw(out):
             out = out[0]
         if isinstance(out,dict):
             is_valid = expected_len == len_or_0(next(iter(out.values())))
